@@ -45,8 +45,15 @@ Regrouped(ob) ==
 RECURSIVE DropAt(_, _)
 DropAt(toks, drop) == SelectSeq([i \in 1..Len(toks) |-> IF i \in drop THEN "" ELSE toks[i]], LAMBDA t : t # "")
 QualToks == {"*", "@", "&", "const"}
+\* position i lies in a typedef statement, or in an instantiation list `= { ... }` of a template header
+InTypedef(toks, i) ==
+  \E j \in 1..i : toks[j] = "typedef" /\ \A k \in j..i : toks[k] # ";"
+InInstList(toks, i) ==
+  \E j \in 2..i : toks[j] = "{" /\ toks[j - 1] = "=" /\ \A k \in j..i : toks[k] # "}"
 ExplainsAfterDroppingOneQual(tree, toks) ==
-  \E i \in 1..Len(toks) : toks[i] \in QualToks /\ Explains(tree, DropAt(toks, {i}))
+  \E i \in 1..Len(toks) : /\ toks[i] \in QualToks
+                          /\ (InTypedef(toks, i) \/ InInstList(toks, i))
+                          /\ Explains(tree, DropAt(toks, {i}))
 
 Clause(ob) ==
   LET toks == ob.toks IN
